@@ -1856,3 +1856,16 @@ def r1_5(rep):
         if (name, path) not in found and not any(k[0].startswith(name + " via") and k[1] == path for k in found):
             rep.ok("qualified:%s@%s" % (name, short(path)), "%d use(s), all path-qualified" % len(locs), locs[0])
     rep.note("quote sites scanned", n_sites)
+
+
+# R1.6 — added by the main session.  C01's fifth mechanism ("the allowlist closure makes every referenced type part of
+# codegen_items") is decided by C09's rules; an independently seeded C01-breaking change (function-signature edges followed only
+# when functions are generated) was caught there but not here, so the two closure rules are shared.
+def _r1_6(rep):
+    import c09
+    c09.r9_6(rep)
+    c09.r9_1(rep)
+    c09.r9_7(rep)
+
+
+RULES.rule("R1.6", "every type a generated item names is generated too: edge enumeration, codegen edge table and traversal are complete (shared with C09)", floor=60)(_r1_6)
